@@ -174,13 +174,13 @@ headers, kinds of statements and the names they bind) they had when the model wa
 loop, early exit or rebinding has been added that the model does not describe -/
 theorem modelled_functions_have_the_transcribed_shape :
     MlVerif.Gen.C17.shapeFit =
-      "self.estimators_=;estimators=;loop=;verbose=;def _fit_piecewise_estimator{new_size=;rnd=;Xr=;yr=;sr=;return};self.estimators_=;return" ∧
+      "sig(self, X, y, sample_weight=None)|self.estimators_=;estimators=;loop=;verbose=;def _fit_piecewise_estimator{new_size=;rnd=;Xr=;yr=;sr=;return};self.estimators_=;return" ∧
     MlVerif.Gen.C17.shapePredictAll =
-      "container=;for((i,est) in enumerate(self.estimators_)){pred=;container[]=};return" ∧
+      "sig(self, X)|container = numpy.empty((X.shape[0], len(self.estimators_))) ; for i, est in enumerate(self.estimators_): pred = est.predict(X) container[:, i] = pred ; return container" ∧
     MlVerif.Gen.C17.shapePredict =
-      "preds=;return" ∧
+      "sig(self, X)|preds = self.predict_all(X) ; return preds.mean(axis=1)" ∧
     MlVerif.Gen.C17.shapePredictSorted =
-      "preds=;for(i in range(preds.shape[0])){preds[]=};return" :=
+      "sig(self, X)|preds = self.predict_all(X) ; for i in range(preds.shape[0]): preds[i, :] = numpy.sort(preds[i, :]) ; return preds" :=
   ⟨rfl, rfl, rfl, rfl⟩
 
 /-! ### non-vacuity: concrete instances satisfying the hypotheses -/
